@@ -280,10 +280,13 @@ class PathEval:
             st.env[l] = ("upd", old, tuple(fs), val)
 
     # ---- walking
-    def run(self):
+    def run(self, start=0, stop_at=()):
+        """Summaries of all paths from `start` to a return - or, with `stop_at`, to the first of those blocks (the summary
+        then describes the state on arrival there; `Summary.blocks[-1]` is the stop block)."""
         self.out = []
+        self._stop = set(stop_at)
         try:
-            self._walk(0, _State())
+            self._walk(start, _State())
         except _TooManyPaths:
             return None
         except _Loop:
@@ -296,6 +299,13 @@ class PathEval:
             if bb in st.blocks:
                 raise _Loop()
             st.blocks.append(bb)
+            if bb in getattr(self, "_stop", ()) and len(st.blocks) > 1:
+                if len(self.out) >= self.max_paths:
+                    raise _TooManyPaths()
+                s_ = Summary(st.conds, st.mem, st.env.get(0, ("undef", 0)), st.calls, st.blocks)
+                s_.env = st.env
+                self.out.append(s_)
+                return
             bl = b.blocks[bb]
             for s in bl["stmts"]:
                 if s["k"] == "assign":
